@@ -417,4 +417,165 @@ theorem importSteps_rescale {c : ℚ} (hc : 0 < c) (g : Graph InEpoch) (lib : Li
   unfold importSteps
   rw [demoEvents_rescale hc, firstIds_rescale hc, loopRows_rescale hc, importLoop_scale hc]
 
+theorem rootNe_rescale (a b : ℚ) (g : Graph InEpoch) : rootNe (g.rescale a b) = (rootNe g).map (b * ·) := by
+  unfold rootNe
+  rw [show (g.rescale a b).demes = g.demes.map (GDeme.rescale a b) from rfl, List.find?_map]
+  have : ((fun d : GDeme InEpoch => d.ancestors.isEmpty) ∘ GDeme.rescale a b) = fun d => d.ancestors.isEmpty := rfl
+  rw [this]
+  cases g.demes.find? (fun d => d.ancestors.isEmpty) with
+  | none => rfl
+  | some d =>
+    simp only [Option.map_some, GDeme.rescale]
+    cases d.epochs with
+    | nil => rfl
+    | cons e es => rfl
+
+/-! ### another time unit -/
+
+theorem tmapT_inv {gt : ℚ} (hgt : gt ≠ 0) (x : ETime) : tmapT (fun y => y / gt) (tmapT (fun y => gt * y) x) = x := by
+  cases x with
+  | none => rfl
+  | some v => simp [tmapT, mul_div_cancel_left₀ _ hgt]
+
+/-- the graph written in years (every time multiplied by the generation time), converted by `in_generations()`, is the graph -/
+theorem inGenerations_years {gt : ℚ} (hgt : gt ≠ 0) (g : Graph InEpoch) : (g.tmap (fun y => gt * y)).inGenerations gt = g := by
+  obtain ⟨ds, ms, ps⟩ := g
+  simp only [Graph.inGenerations, Graph.tmap, List.map_map, Graph.mk.injEq]
+  refine ⟨?_, ?_, ?_⟩
+  · conv_rhs => rw [← List.map_id ds]
+    apply List.map_congr_left
+    intro d _
+    obtain ⟨n, st, an, pr, ep⟩ := d
+    simp only [Function.comp_def, GDeme.tmap, tmapT_inv hgt, List.map_map, id, GDeme.mk.injEq, true_and]
+    conv_rhs => rw [← List.map_id ep]
+    apply List.map_congr_left
+    intro e _
+    obtain ⟨f, a, b, c⟩ := e
+    simp [TimeScalable.tmap, mul_div_cancel_left₀ _ hgt]
+  · conv_rhs => rw [← List.map_id ms]
+    apply List.map_congr_left
+    intro m _
+    obtain ⟨a, b, sy, r, st, et⟩ := m
+    simp [GMig.tmap, tmapT_inv hgt, mul_div_cancel_left₀ _ hgt]
+  · conv_rhs => rw [← List.map_id ps]
+    apply List.map_congr_left
+    intro p _
+    obtain ⟨so, d, pr, tm⟩ := p
+    simp [GPulse.tmap, mul_div_cancel_left₀ _ hgt]
+
+theorem convert_years {gt : ℚ} (hgt : gt ≠ 0) (g : Graph InEpoch) (times : List ℚ) :
+    convertToGenerations false gt (g.tmap (fun y => gt * y)) (times.map fun x => gt * x) = (g, times) := by
+  unfold convertToGenerations
+  simp only [Bool.false_eq_true, if_false, inGenerations_years hgt, List.map_map, Prod.mk.injEq, true_and]
+  conv_rhs => rw [← List.map_id times]
+  apply List.map_congr_left
+  intro x _
+  simp [mul_div_cancel_left₀ _ hgt]
+
+/-! ### the order of the sampled demes -/
+
+theorem demoEvents_congr (g : Graph InEpoch) (lib : List (ℚ × DEvt)) (s s' : List DName) (h : ∀ x, s'.contains x = s.contains x) :
+    demoEvents g lib s' = demoEvents g lib s := by
+  unfold demoEvents
+  congr 1
+  apply List.filterMap_congr
+  intro d _
+  unfold marginalizeCond
+  simp only [h]
+
+theorem applyOrderN_newOrderN (ids wanted : List DName) (h : ∀ p ∈ wanted, p ∈ ids) :
+    applyOrderN ids (newOrderN ids wanted) = wanted := by
+  unfold applyOrderN newOrderN
+  rw [List.filterMap_map]
+  induction wanted with
+  | nil => rfl
+  | cons p ps ih =>
+    have hp := h p List.mem_cons_self
+    have hlt := List.idxOf_lt_length_iff.2 hp
+    have ih' := ih (fun q hq => h q (List.mem_cons_of_mem _ hq))
+    simp only [Function.comp_def, Nat.add_sub_cancel] at ih'
+    simp only [List.filterMap_cons, Function.comp_def, Nat.add_sub_cancel, List.getElem?_eq_getElem hlt, List.getElem_idxOf, ih']
+
+theorem newOrderN_select (ids sampled : List DName) (is : List ℕ) :
+    newOrderN ids (is.filterMap fun i => sampled[i]?) = is.filterMap fun i => (newOrderN ids sampled)[i]? := by
+  unfold newOrderN
+  rw [List.map_filterMap]
+  apply List.filterMap_congr
+  intro i _
+  simp [List.getElem?_map]
+
+/-! ### what the two search loops return -/
+
+theorem foldl_last_match {α : Type} (p : α → Bool) (f : α → ℚ) (l : List α) : ∀ init : ℚ,
+    l.foldl (fun r m => if p m then f m else r) init = match (l.filter p).getLast? with
+      | some m => f m
+      | none => init := by
+  induction l with
+  | nil => intro init; rfl
+  | cons m ms ih =>
+    intro init
+    simp only [List.foldl_cons, ih, List.filter_cons]
+    cases hp : p m
+    · simp
+    · simp only [if_true]
+      cases hL : ms.filter p with
+      | nil => simp
+      | cons x xs =>
+        have hne : (x :: xs).getLast? = some ((x :: xs).getLast (by simp)) := List.getLast?_eq_some_getLast (by simp)
+        rw [List.getLast?_cons_cons, hne]
+
+/-- `_migration_rate_in_interval` on a resolved graph (asymmetric migrations only): the rate of the LAST migration source → dest whose
+    time span contains the interval, 0 if there is none -/
+theorem migRate_spec (migs : List GMig) (hasym : ∀ m ∈ migs, m.sym = none) (s d : DName) (i0 i1 : ETime) :
+    migRate migs s d i0 i1 = match (migs.filter fun m => m.source == s && m.dest == d && (tge m.st i0 && tle (some m.et) i1)).getLast? with
+      | some m => m.rate
+      | none => 0 := by
+  unfold migRate
+  have hstep : ∀ m ∈ migs, ∀ r : ℚ, migRateStep r m s d i0 i1
+      = if (m.source == s && m.dest == d && (tge m.st i0 && tle (some m.et) i1)) then m.rate else r := by
+    intro m hm r
+    unfold migRateStep
+    rw [hasym m hm]
+    simp only
+    cases h1 : (m.source == s && m.dest == d) <;> cases h2 : (tge m.st i0 && tle (some m.et) i1) <;> simp [h1, h2]
+  have hfold : ∀ (l : List GMig), (∀ m ∈ l, m ∈ migs) → ∀ init : ℚ,
+      l.foldl (fun r m => migRateStep r m s d i0 i1) init
+        = l.foldl (fun r m => if (m.source == s && m.dest == d && (tge m.st i0 && tle (some m.et) i1)) then m.rate else r) init := by
+    intro l
+    induction l with
+    | nil => intro _ init; rfl
+    | cons m ms ih =>
+      intro hsub init
+      simp only [List.foldl_cons]
+      rw [hstep m (hsub m List.mem_cons_self), ih (fun x hx => hsub x (List.mem_cons_of_mem _ hx))]
+  rw [hfold migs (fun m hm => hm), foldl_last_match]
+  simp only [migRateInit]
+  cases (migs.filter fun m => m.source == s && m.dest == d && (tge m.st i0 && tle (some m.et) i1)).getLast? <;> simp
+
+/-- the epoch `_sizes_at_time` works with: the FIRST epoch of the deme whose time span contains the interval — or, when none does, the
+    deme's last epoch (the loop variable after a `for` without `break`) -/
+theorem epochSearch_spec (eps : List Epoch) (i0 i1 : ETime) (e : Epoch) (h : epochSearch eps i0 i1 = some e) :
+    (epochCovers e.st e.et i0 i1 = true ∧ ∃ pre post, eps = pre ++ e :: post ∧ ∀ y ∈ pre, epochCovers y.st y.et i0 i1 = false)
+    ∨ ((∀ y ∈ eps, epochCovers y.st y.et i0 i1 = false) ∧ eps.getLast? = some e) := by
+  unfold epochSearch forBreak at h
+  cases hf : eps.find? (fun epoch => tge epoch.st i0 && tle epoch.et i1) with
+  | some x =>
+    rw [hf] at h
+    simp only [Option.some.injEq] at h
+    subst h
+    left
+    obtain ⟨hc, pre, post, hl, hpre⟩ := List.find?_eq_some_iff_append.1 hf
+    refine ⟨hc, pre, post, hl, ?_⟩
+    intro y hy
+    have := hpre y hy
+    unfold epochCovers
+    cases h1 : tge y.st i0 <;> cases h2 : tle y.et i1 <;> simp_all
+  | none =>
+    rw [hf] at h
+    right
+    refine ⟨?_, h⟩
+    intro y hy
+    have := List.find?_eq_none.1 hf y hy
+    simpa [epochCovers] using this
+
 end DadiVerif.DemesConv
